@@ -43,6 +43,9 @@ func runC13(c *Ctx) {
 	c13ValidateBeforeSkip(c)
 	c13ViewWrapsArgument(c)
 	c13PathPrefixByString(c)
+	c13NormalizeAlwaysCleans(c)
+	c13ViewRootRefused(c)
+	c14DiskValidateFirst(c)
 	c13DiskJoin(c)
 	c13ValidatorCovers(c)
 	c13ConstructorValidates(c)
